@@ -32,6 +32,8 @@ pub struct Args {
     pub repo: PathBuf,
     pub scale: f64,
     pub dump: Option<PathBuf>,
+    pub digest_out: Option<PathBuf>,
+    pub slice: bool,
 }
 
 fn parse_args() -> Args {
@@ -46,6 +48,8 @@ fn parse_args() -> Args {
         repo: PathBuf::from("/repo"),
         scale: 1.0,
         dump: None,
+        digest_out: None,
+        slice: false,
     };
     let mut it = std::env::args().skip(1);
     while let Some(x) = it.next() {
@@ -58,6 +62,11 @@ fn parse_args() -> Args {
             "--repo" => a.repo = it.next().map(PathBuf::from).unwrap(),
             "--scale" => a.scale = it.next().and_then(|s| s.parse().ok()).unwrap_or(1.0),
             "--dump" => a.dump = it.next().map(PathBuf::from),
+            "--selftest-slice" => a.slice = true,
+            "--digest-out" => {
+                a.digest_out = it.next().map(PathBuf::from);
+                report::DIGEST.store(true, std::sync::atomic::Ordering::Relaxed);
+            }
             _ if a.cmd.is_empty() => a.cmd = x,
             _ => a.file = Some(PathBuf::from(x)),
         }
@@ -77,7 +86,8 @@ pub fn make_env(args: &Args, worker: usize) -> sim::Env {
             std::process::exit(2);
         }
     };
-    let scratch = PathBuf::from(format!("/dev/shm/verif-{}-{}", std::process::id(), worker));
+    // fixed width: diagnostics contain this path and are truncated by length
+    let scratch = PathBuf::from(format!("/dev/shm/verif-{:08}-{:03}", std::process::id(), worker));
     let _ = std::fs::remove_dir_all(&scratch);
     if let Err(e) = std::fs::create_dir_all(&scratch) {
         eprintln!("harness error: cannot create scratch dir {scratch:?}: {e}");
@@ -136,6 +146,10 @@ fn run_c17(args: &Args) -> i32 {
     let mut merged = Value::Null;
     for s in &summaries {
         report::merge(&mut merged, s);
+    }
+    if let Some(out) = &args.digest_out {
+        let (n, h) = report::write_digests(&merged, Some(out));
+        println!("digest: {n} runs, hash {h:016x}");
     }
     let st = &merged["stats"];
     let mut violations: Vec<Violation> = merged["violations"].as_array().cloned().unwrap_or_default().iter().filter_map(Violation::from_json).collect();
@@ -213,7 +227,11 @@ fn run_c17(args: &Args) -> i32 {
 fn run_c16(args: &Args) -> i32 {
     let paths = Paths { verif: args.verif.clone(), repo: args.repo.clone() };
     let t0 = now_s();
-    let ctx = c16::Ctx { corpus: corpus::load(&args.repo, &args.verif.join("corpus/grammars")), seed: args.seed, paths: Paths { verif: args.verif.clone(), repo: args.repo.clone() } };
+    let mut ctx = c16::Ctx { corpus: corpus::load(&args.repo, &args.verif.join("corpus/grammars")), seed: args.seed, paths: Paths { verif: args.verif.clone(), repo: args.repo.clone() } };
+    if args.slice {
+        // determinism self-test: a slice of the corpus, small files only
+        ctx.corpus = ctx.corpus.into_iter().filter(|g| g.bytes.len() < 400).step_by(9).collect();
+    }
     if ctx.corpus.is_empty() {
         eprintln!("harness error: no grammars found under {:?}", args.repo);
         return 2;
@@ -241,6 +259,10 @@ fn run_c16(args: &Args) -> i32 {
     let mut merged = Value::Null;
     for s in &summaries {
         report::merge(&mut merged, s);
+    }
+    if let Some(out) = &args.digest_out {
+        let (n, h) = report::write_digests(&merged, Some(out));
+        println!("digest: {n} runs, hash {h:016x}");
     }
     let st = &merged["stats"];
     let mut violations: Vec<Violation> = merged["violations"].as_array().cloned().unwrap_or_default().iter().filter_map(Violation::from_json).collect();
@@ -346,6 +368,10 @@ fn run_c18(args: &Args) -> i32 {
     let mut merged = Value::Null;
     for s in &summaries {
         report::merge(&mut merged, s);
+    }
+    if let Some(out) = &args.digest_out {
+        let (n, h) = report::write_digests(&merged, Some(out));
+        println!("digest: {n} runs, hash {h:016x}");
     }
     let st = &merged["stats"];
     let mut violations: Vec<Violation> = merged["violations"].as_array().cloned().unwrap_or_default().iter().filter_map(Violation::from_json).collect();
